@@ -37,12 +37,7 @@ def run_cases(impl, model, cases):
         target = 'tramp2' if c['engine'] == 'lazy' else 'tramp'
         lines.append(' '.join(['c%d' % i, 'c06', c['engine'], target, G.hexs(H.c06_mir(c['proto'], c['body']).encode()),
                                G.hexs(vb), G.hexs(img)]))
-    rc, out, err = vlib.run_lines(impl, lines, timeout=1800, env={'C06_DUMP': '1'})
-    rows = {}
-    for l in out:
-        if l.strip():
-            r = G.parse_impl(l)
-            rows.setdefault(r['id'], r)
+    rows, err = G.run_harness(vlib, impl, lines, env={'C06_DUMP': '1'})
     # frame observations (generator listing after prologue/epilogue insertion) vs. the Frame model
     fq, fobs = [], {}
     for i, c in enumerate(cases):
@@ -95,12 +90,7 @@ def gcc_callers(chk, model, quick):
             vb[0:len(ab)] = ab
             cases.append(c)
             lines.append(' '.join(['q%d' % len(lines), 'c06', e, c['target'], G.hexs(H.c06_mir(p, body).encode()), G.hexs(bytes(vb)), '-']))
-    rc, out, err = vlib.run_lines(impl_g, lines, timeout=1800)
-    rows = {}
-    for l in out:
-        if l.strip():
-            r = G.parse_impl(l)
-            rows.setdefault(r['id'], r)
+    rows, err = G.run_harness(vlib, impl_g, lines)
     mlines = [G.model_line('q%d' % i, c['proto'], c['vals'], dict(rax=0, rdx=0, xmm0=0, xmm1=0), VALS_ADDR) for i, c in enumerate(cases)]
     rc2, mout, merr = vlib.run_lines(model, mlines, timeout=600)
     if rc2 != 0 or len(mout) != len(cases):
